@@ -34,6 +34,17 @@ def frame(t, ns=None, pid=None, data=None, natt=None):
     return s
 
 
+def wire(serializer, t, ns=None, pid=None, data=None, natt=None):
+    """The engine.io payload a client would send for this packet under the given serializer."""
+    if serializer == 'msgpack':
+        import msgpack
+        d = {'type': t, 'nsp': ns or '/', 'data': _no_surrogates(data)}
+        if pid is not None:
+            d['id'] = pid
+        return msgpack.dumps(d)
+    return eio_decode(frame(t, ns, pid, data, natt))
+
+
 class Knobs:
     def __init__(self, **kw):
         self.n_ops = 25
@@ -50,6 +61,7 @@ class Knobs:
         self.namespaces = None          # 'star' | list | None = random
         self.serializer = 'default'
         self.nested_ack = 0.0
+        self.self_disconnect = 0.0
         self.__dict__.update(kw)
 
 
@@ -62,7 +74,8 @@ def gen_behav(rng, kind, k, ns_is_star=False):
         if r < k.refuse / 2:
             b['outcome'] = ('ret', False)
         elif r < k.refuse:
-            b['outcome'] = ('refuse', rng.choice([[], ['no way'], ['denied', {'code': 7}], ['a', 1, 2], [42], ['no', b'xx']]))
+            b['outcome'] = ('refuse', rng.choice([[], ['no way'], ['denied', {'code': 7}], ['a', 1, 2], [42], ['no', b'xx'], ['quota', 0], ['x', None],
+                                                  ['x', False], ['x', ''], ['x', []], ['x', {}], [0], ['', 1], ['a', None, None]]))
         elif r < k.refuse + k.raise_p:
             b['outcome'] = ('raise', rng.choice(['ValueError', 'KeyError', 'TypeError', 'OtherError']))
         else:
@@ -173,7 +186,26 @@ def gen_history(rng, k=None, cfg=None):
         op = gen_op(rng, k, sh, kind)
         if op is not None:
             ops.extend(op)
+    if k.serializer == 'msgpack':
+        ops = [tuple(_no_surrogates(x) for x in o) for o in ops]      # msgpack cannot pack lone surrogates
+        for b in cfg['behav'].values():
+            b['outcome'] = _no_surrogates(b['outcome'])
+            b['actions'] = _no_surrogates(b['actions'])
     return cfg, ops
+
+
+def _no_surrogates(v):
+    if isinstance(v, str):
+        return ''.join('?' if 0xD800 <= ord(ch) <= 0xDFFF else ch for ch in v)
+    if isinstance(v, int) and not isinstance(v, bool) and not -2 ** 63 <= v < 2 ** 63:
+        return v % (2 ** 31)            # msgpack integers are 64-bit
+    if isinstance(v, list):
+        return [_no_surrogates(x) for x in v]
+    if isinstance(v, tuple):
+        return tuple(_no_surrogates(x) for x in v)
+    if isinstance(v, dict):
+        return {_no_surrogates(a): _no_surrogates(b) for a, b in v.items()}
+    return v
 
 
 def pick_sid(rng, sh, p_unknown=0.1):
@@ -203,11 +235,11 @@ def gen_op(rng, k, sh, kind):
             sh.next_sid += 1
             if (e, ns) not in sh.sids:
                 sh.sids[(e, ns)] = sid
-        return [('msg', e, eio_decode(frame(0, ns, None, auth)))]
+        return [('msg', e, wire(k.serializer, 0, ns, None, auth))]
     if kind == 'client_disconnect':
         e, ns, sid = pick_sid(rng, sh)
         sh.sids.pop((e, ns), None)
-        return [('msg', e, eio_decode(frame(1, ns)))]
+        return [('msg', e, wire(k.serializer, 1, ns))]
     if kind == 'close':
         e = rng.choice(sh.eios)
         sh.eios.remove(e)
@@ -219,7 +251,22 @@ def gen_op(rng, k, sh, kind):
         ev = rng.choice(['ev', 'ev', 'msg', 'other', 'nobody', 'connect' if rng.random() < 0.05 else 'ev'])
         args = [values.gen_json(rng, 2, bytes_ok=False) for _ in range(rng.randrange(0, 3))]
         pid = rng.choice([None, None, 0, 1, 2, 7, rng.randrange(1000)])
-        return [('msg', e, eio_decode(frame(2, ns, pid, [ev] + args)))]
+        kind_ = 'msg_sd' if rng.random() < k.self_disconnect else 'msg'
+        return [(kind_, e, wire(k.serializer, 2, ns, pid, [ev] + args))]
+    if kind == 'binary' and k.serializer == 'msgpack':
+        e, ns, sid = pick_sid(rng, sh)      # bytes travel inline
+        return [('msg', e, wire('msgpack', 2, ns, rng.choice([None, 3, 0]), ['ev', b'\x00\xff', {'b': b'x'}]))]
+    if kind == 'junk' and k.serializer == 'msgpack':
+        import msgpack
+        e = rng.choice(sh.eios)
+        good = msgpack.dumps({'type': 2, 'nsp': '/', 'data': ['ev', 1], 'id': 4})
+        other = msgpack.dumps({'type': 2, 'nsp': '/chat', 'data': ['msg', 'x']})
+        return [('msg', e, rng.choice([good[:-2], good + b'\x01', good + other, b'\xc1', b'', bytes([rng.randrange(256) for _ in range(6)]),
+                                       msgpack.dumps([1, 2]), msgpack.dumps(7), msgpack.dumps('2["ev"]'), msgpack.dumps({'nsp': '/'}),
+                                       msgpack.dumps({'type': 2}), msgpack.dumps({'type': 9, 'nsp': '/', 'data': None}),
+                                       msgpack.dumps({'type': 4, 'nsp': '/', 'data': 'x'}), msgpack.dumps({'type': 5, 'nsp': '/', 'data': ['ev']}),
+                                       msgpack.dumps({'type': 2, 'nsp': '/', 'data': None}), msgpack.dumps({'type': 2, 'nsp': '/', 'data': {'a': 1}}),
+                                       msgpack.dumps({'type': True, 'nsp': '/'}), '2["ev"]', msgpack.dumps({'type': 3, 'nsp': '/', 'data': None, 'id': 1})]))]
     if kind == 'binary':
         e, ns, sid = pick_sid(rng, sh)
         n = rng.choice([1, 1, 2])
@@ -236,7 +283,7 @@ def gen_op(rng, k, sh, kind):
         pid = rng.choice([0, 1, 1, 2, 3, 5, None])
         data = rng.choice([[], ['ok'], [1, 2], [{'a': 1}], None, 'str', {'k': 'v'}])
         kind_ = 'msg_nested' if rng.random() < k.nested_ack else 'msg'
-        return [(kind_, e, eio_decode(frame(3, ns, pid, data)))]
+        return [(kind_, e, wire(k.serializer, 3, ns, pid, data))]
     if kind in ('emit', 'emit_cb'):
         e, ns, sid = pick_sid(rng, sh)
         tgt = rng.random()
@@ -285,9 +332,9 @@ def gen_op(rng, k, sh, kind):
         return [('session_set', sid, ns, rng.choice(['user', 'cart', 'k']), rng.choice([1, 'v', [1, 2]]))]
     if kind == 'junk':
         e = rng.choice(sh.eios)
-        wire = rng.choice(['', 'x', '9', '4"err"', '2', '2[]', '2{}', '2"ev"', '2[["ev"]]', '2[1]', '2[null,1]', 'true', 'false',
+        w_ = rng.choice(['', 'x', '9', '4"err"', '2', '2[]', '2{}', '2"ev"', '2[["ev"]]', '2[1]', '2[null,1]', 'true', 'false',
                            '1.0', '2.0', '[1]', '{"a":1}', '"2[\\"ev\\"]"', '50-["ev"]', '31', '3', '0/nope,', '2/chat',
                            '212345678901234567890["ev"]', '51-["ev",{"_placeholder":true,"num":5}]', b'\x00stray',
                            '2[{"a":1}]', '7', '٢["ev"]', '0{"a":1}', '0/chat,"x"', '21-["ev"]'])
-        return [('msg', e, eio_decode(wire))]
+        return [('msg', e, eio_decode(w_))]
     return None
